@@ -95,6 +95,14 @@ claim("C15", "other", "term template over the outcomes of StringTable::get_raw /
       "Partial / idiom-bound: implementations outside the recognised idioms (memchr, manual loops) are reported as UNRECOGNISED, not judged. Trusted: the four core functions.",
       "DESIGN.md 5/C15")
 
+claim("C14", "other", "provenance templates over the acyclic paths of Note::parse_at, NoteIterator::{new,next}, NoteAny::name_str and the NoteIterator::new call sites of both parsers",
+      "On every success path: header parsed as three 32-bit words (Class::ELF32) with the note's endian; name and descriptor are exactly data[hdr_end..+namesz] and "
+      "data[pad(name_end)..+descsz]; the cursor ends at pad(desc_end); pad is a recognised align-up idiom guarded by x % align > 0; align 0 is an error; typed variants are produced "
+      "exactly under name == GNU\\0 and the two n_type constants with the same descriptor bytes; the iterator feeds its own fields and stops at the first failure; both parsers "
+      "pass the file's endianness/class and sh_addralign / p_align.",
+      "Partial: the numeric correctness of the padding expression for every residue is not evaluated (idiom recognised). Trusted: C02 (header/ABI-tag decoding), C03 (buffer), core slice-pattern matching.",
+      "DESIGN.md 5/C14")
+
 for pid in ["C01", "C02", "C03", "C04", "C05", "C06", "C07", "C08", "C09", "C10", "C11", "C12", "C13", "C14", "C15", "C16", "C17", "C18", "C20"]:
     if pid not in CLAIMS:
         na(pid, "static rule designed (DESIGN.md section 5) but its checker is not built yet in this revision; not claimed until it runs silent on the tree and fires on control mutants")
